@@ -669,14 +669,23 @@ def step (st : St) (line : String) : St × String :=
           let same := decide (Mac.input k = Mac.input k0)
           (st, "ok acc=" ++ (if Mac.acceptedLike k0 k then "1" else "0") ++ " unch=1 same_stream=" ++ (if same then "1" else "0"))
     | _, _ => (st, "bad-op")
-  | "tamper_enc" :: es :: ed :: _ =>
+  | "tamper_enc" :: es :: ed :: rest =>
     -- any modification of an encapsulation: by the binding theorem (`CC.Props.C07`) the result
     -- passes no tag check; it is represented as an encapsulation nothing opens
     match handle 'E' es, handle 'E' ed with
     | some i, some j =>
       match getSlot st.encs i with
       | none => (st, "err NoSuchHandle")
-      | some (x, s) => ({ st with encs := setSlot st.encs j (some ({ x with targets := [] }, s)) }, "ok")
+      | some (x, s) =>
+        -- an operator that splices from another encapsulation needs that one to exist (matters only when a
+        -- history is being shrunk: the line that created it may have been dropped)
+        let donorMissing := match rest with
+          | op :: d :: _ => op.startsWith "splice" && (match handle 'E' d with
+              | some k => (getSlot st.encs k).isNone
+              | none => true)
+          | _ => false
+        if donorMissing then (st, "bad-op")
+        else ({ st with encs := setSlot st.encs j (some ({ x with targets := [] }, s)) }, "ok")
     | _, _ => (st, "bad-op")
   | ["pke_enc", ks, xs, p, ptx] =>
     match handle 'K' ks, handle 'X' xs, optBytes ptx with
